@@ -79,9 +79,19 @@ package shard
 //@   callee shard.IsErrObjectExpired
 //@   defines result == expiredClass(a0)
 
+// A restore reports success only when the stream ended cleanly between two records, i.e. the
+// reader answered io.EOF to the read of the next length prefix; any other reader error at
+// that point aborts (a partial restore must not look complete).
+//@ ghost pred cleanEndOfDump() bool
+//@ callrule restore_end_of_dump in (*Shard).Restore
+//@   property C46
+//@   callee errors.Is
+//@   pureeffect
+//@   defines result && a1 == io.EOF ==> cleanEndOfDump()
 //@ func (*Shard).Restore
 //@   property C46
 //@   mode bv
+//@   ensures [success_only_after_a_clean_end_of_the_dump] err == nil ==> cleanEndOfDump()
 //@   ensures [corrupted_record_aborts_only_if_not_ignored] err != nil && resultOf(err, "(*object.Object).Unmarshal") ==> !ignoreErrors
 //@   ensures [expired_or_removed_objects_do_not_abort] err != nil && resultOf(err, "(*shard.Shard).Put") ==> !expiredClass(err) && !errIs(err, apistatus.ErrObjectAlreadyRemoved)
 
